@@ -188,6 +188,8 @@ def prop_C15(ctx, tier):
               'W1: generated code registers the stats static it also passes to the cache, under the name attribute or the function name. Not decided: equality with a model\'s counts over histories.',
               ASSUME_COMMON)
     n, anchors = K.check_lookup_stats(run, ctx)
+    from . import planted as PL
+    PL.expect_fires(run, 'C15-P1', 'a hit of the sync global lookup counted as a miss', PL.plant_hit_counted_as_miss(ctx), K.check_lookup_stats)
     K.check_lookup_stats_free(run, ctx)
     run.require('C15-E1', 'lookup entry points', len([a for a in anchors.values() if a]), 3)
     run.require('C15-E1', 'scenario outcomes', n, 300)
@@ -207,6 +209,9 @@ def prop_C06(ctx, tier):
               'the lookup and the expiry test: expired => nothing returned, key purged from store and queue on every path, no hit effects; fresh => value returned, nothing removed; '
               'absent => no effect. S1: birth time is written only when an entry is stored (Instant::now / whole-second clock). Not decided: wall-clock behaviour.', ASSUME_COMMON)
     K.check_expiry_form(run, ctx)
+    from . import planted as PL
+    PL.expect_fires(run, 'C06-K1', 'sync expiry test age > ttl', PL.plant_expiry_off_by_one(ctx), K.check_expiry_form)
+    PL.expect_fires(run, 'C06-K1', 'async expiry test age > ttl', PL.plant_async_expiry_off_by_one(ctx), K.check_expiry_form)
     n, anchors = K.check_lookup_expiry(run, ctx)
     run.require('C06-E1', 'lookup entry points', len([a for a in anchors.values() if a]), 3)
     run.require('C06-E1', 'expiry test sites', sum(a['expiry'] for a in anchors.values() if a), 3)
@@ -228,6 +233,8 @@ def prop_C07(ctx, tier):
     run.require('C07-E1', 'lookup entry points', len([a for a in anchors.values() if a]), 3)
     run.require('C07-E1', 'LRU/FIFO hit outcomes', n, 40)
     S.check_orientation(run, ctx)
+    from . import planted as PL
+    PL.expect_fires(run, 'C07-S1', 'sync global victim popped from the back of the queue', PL.plant_fifo_pops_newest(ctx), S.check_orientation)
     S.check_order_preserving(run, ctx, 'C07-S2')
     K.check_orphan_tolerance(run, ctx, 'C07-P1')
     K.check_store_pairing(run, ctx, 'C07-S3')
@@ -246,6 +253,8 @@ def prop_C08(ctx, tier):
     n, anchors = K.check_hit_effects(run, ctx, 'C08')
     run.require('C08-E1', 'LFU/ARC/TLRU hit outcomes', n, 60)
     K.check_selectors(run, ctx)
+    from . import planted as PL
+    PL.expect_fires(run, 'C08-F1', 'LFU scan comparison reversed', PL.plant_lfu_picks_most_used(ctx), K.check_selectors)
     K.check_frequency_shapes(run, ctx)
     from . import rules_l as L
     L.check_no_try_locks(run, ctx.world, 'C08-E2', only=lambda b: b.crate is ctx.core)
@@ -264,6 +273,9 @@ def prop_C04(ctx, tier):
               'queue it is removed from. P3: re-stored keys lose their old queue slot under every policy (structural and scenario form). E2: an own-key replacement precedes the overflow '
               'test. P5: the key removed from the store is the key removed from the queue. P1 also: an overflow with a victim available removes one. Not decided: the numeric bound over histories (induction on paper).', ASSUME_COMMON)
     K.check_overflow_form(run, ctx)
+    from . import planted as PL
+    PL.expect_fires(run, 'C04-K1', 'sync global overflow test len >= limit', PL.plant_overflow_off_by_one(ctx), K.check_overflow_form)
+    PL.expect_fires(run, 'C04-K1', 'async overflow test len > limit', PL.plant_async_overflow_off_by_one(ctx), K.check_overflow_form)
     n, anchors = K.check_overflow_test_on_every_path(run, ctx)
     run.require('C04-E1', 'store entry points', len([a for a in anchors.values() if a]), 6)
     n2, a2 = K.check_one_victim(run, ctx)
@@ -293,6 +305,8 @@ def prop_C05(ctx, tier):
               'removes exactly one victim (the same key) from store and queue, and an iteration that removed nothing leaves the loop. E2: an own-key replacement precedes the fit test. S1: estimator impls count capacity and recurse into every component. S2: each estimator impl, normalised to a polynomial over size_of / capacity / recursive estimates, equals the reviewed formula (inline size + owned heap capacity). '
               'W1: max_memory selects the memory-aware store. Not decided: numeric totals.', ASSUME_COMMON)
     K.check_memory_forms(run, ctx)
+    from . import planted as PL
+    PL.expect_fires(run, 'C05-K1', 'oversize test size >= max_memory', PL.plant_oversize_off_by_one(ctx), K.check_memory_forms)
     K.check_replacement_before_fit_test(run, ctx)
     K.check_memory_loop(run, ctx)
     S.check_estimators(run, ctx)
